@@ -152,6 +152,10 @@ def openvpn(rng):
         lib = ovpn.OpenVpnPacketHardResetServerV2(session_id, remote, acks, packet_id)
         wire = ref.openvpn_packet(8, 0, session_id, acks, remote, packet_id, b'')
         label = 'openvpn-hard-reset-server-v2'
+    if rng.random() < 0.3:
+        # the low three bits of the first octet are the key id; the model does not keep it, so parse direction only
+        key_id = rng.randrange(1, 8)
+        return Pair(label + '+key-id', lib, bytes([wire[0] | key_id]) + wire[1:], compose_must_match=False)
     return Pair(label, lib, wire)
 
 
@@ -203,6 +207,19 @@ def ldap_request_variants(rng):
                                       rng.choice([None, 1, 2, 4]), rng.choice([None, 1, 4]))
     return Pair('ldap-start-tls-request-variant', ldap.LDAPExtendedRequestStartTLS(), wire, {'wire_type': 'request'},
                 compose_must_match=False)
+
+
+def objects_only(rng):
+    """Objects the constructors accept and for which no reference encoding is claimed here: only checks that need
+    no reference (compose -> parse, rendering) take them."""
+    _, mysql, _, _, _ = _mods()
+    cap = mysql.MySQLCapability
+    capabilities = subset(rng, list(cap), always=(cap.CLIENT_PLUGIN_AUTH, ))
+    yield 'mysql-handshake-v10-short-scramble', mysql.MySQLHandshakeV10(
+        protocol_version=rng.choice(list(mysql.MySQLVersion)), server_version=rng.choice(['5.7.33', 'x']),
+        connection_id=rng.getrandbits(32), auth_plugin_data=rbytes(rng, 8), capabilities=capabilities,
+        character_set=rng.choice(list(mysql.MySQLCharacterSet)), states=subset(rng, list(mysql.MySQLStatusFlag)),
+        auth_plugin_data_2=rbytes(rng, rng.randrange(0, 13)), auth_plugin_name=rng.choice(['mysql_native_password', 'p']))
 
 
 def generate(rng, count, failures=False):
